@@ -389,11 +389,34 @@ def ref_simulate(M, order, cells, tab_in, par):
     return tab, kinds
 
 
-def in_range(M, ref_tab):
+def in_range(M, ref_tab, zero_cell=None):
     for (nm, t), v in ref_tab.items():
+        if (nm, t) == zero_cell and v == 0.0:
+            continue                # the one cell deliberately exogenized to a level of exactly zero
         if v == v and (abs(v) > 1e4 or (nm in M.names and 0 <= t < T and abs(v) < 1e-4)):
             return False
     return True
+
+
+ZERO_PLAN_DATA = {"none": 0.0, "roc": 0.0, "pct": -100.0}       # plan data that imply a level of exactly 0.0
+ZERO_LHS = ("none", "diff")         # left-hand transforms that are defined at, and after, a zero level
+ZERO_PTR = ("none", "diff", "roc", "pct")
+
+
+def set_zero_level_data(M, case, cells, tabs, seed):
+    """case["zero_at"]: the plan data of the (single) exogenized variable at that date are replaced by the value
+    whose implied LEVEL is exactly 0.0 (level 0; diff = -x[t-1]; roc 0; pct -100)"""
+    j, dates, ptr, wd = case["plan"]["entries"][0]
+    x = M.names[j]
+    t0 = case["zero_at"]
+    for v, tab in enumerate(tabs):
+        if ptr == "diff":
+            order0 = [o for o in ORDERS if M.valid(o)][0]
+            r0, _ = ref_simulate(M, order0, cells, tab, M.param_values(seed, v))
+            tab[(plan_series(ptr, x), t0)] = -r0[(x, t0 - 1)]
+        else:
+            tab[(plan_series(ptr, x), t0)] = ZERO_PLAN_DATA[ptr]
+    return (x, t0)
 
 
 # ---------------------------------------------------------------------------
@@ -428,11 +451,14 @@ def run_case(M, m, case, res, ctx_seed):
     plan, resmode, nv, prepend = case["plan"], case["resmode"], case["nv"], case["prepend"]
     cells = plan_cells(M, plan)
     tabs = make_inputs(M, plan, resmode, nv, ctx_seed)
+    zero_cell = None
+    if case.get("zero_at") is not None:
+        zero_cell = set_zero_level_data(M, case, cells, tabs, ctx_seed)
     span = START >> (START + T - 1)
     db = None
     outs = {}
-    ckey = "%s#%r#%s#%d#%d#%s" % (M.key(), None if not plan else (plan["entries"], plan.get("present")), resmode, nv, prepend,
-                                     "reversed" if case.get("reverse") else "")
+    ckey = "%s#%r#%s#%d#%d#%s#%r" % (M.key(), None if not plan else (plan["entries"], plan.get("present")), resmode, nv, prepend,
+                                        "reversed" if case.get("reverse") else "", case.get("zero_at"))
     seen = res.__dict__.setdefault("_c17_seen", set())
 
     def cls_once(name, value):
@@ -447,8 +473,11 @@ def run_case(M, m, case, res, ctx_seed):
             continue
         pars = [M.param_values(ctx_seed, v) for v in range(nv)]
         refs = [ref_simulate(M, order, cells, tabs[v], pars[v]) for v in range(nv)]
-        if not all(in_range(M, r[0]) for r in refs):
+        if not all(in_range(M, r[0], zero_cell) for r in refs):
             res.exclude("reference_out_of_range")
+            continue
+        if zero_cell is not None and not all(r[0][zero_cell] == 0.0 and r[1][(M.names.index(zero_cell[0]), zero_cell[1])] == "exogenized" for r in refs):
+            res.exclude("zero_level_not_exact")
             continue
         if db is None:
             db = to_databox(tabs)
@@ -539,6 +568,9 @@ def run_case(M, m, case, res, ctx_seed):
                             % (eq["text"], t, v, lhs, rhs, r, lhs - rhs - r), **sig)
                     if kind == "exogenized":
                         ptr = pt[0]
+                        if (x, t) == zero_cell:
+                            res.count("cells_exogenized_to_exact_zero")
+                            sig["implied_level"] = "exactly zero"
                         dv = in_tab[(plan_series(ptr, x), t)]
                         got = safe_ev(E.expand_pf(lhs_tree(ptr, x)), get, t)
                         pscale = 1.0 + abs(dv) + abs(out_tab[(x, t)]) + (100.0 if ptr == "pct" else 0.0)
@@ -750,7 +782,7 @@ WINDOW_SUBSETS = [s for s in subsets(list(WINDOW)) if s]
 PRESENT_SUBSETS = subsets(list(WINDOW))
 
 
-def plan_cases(j, ptr, wd, nv, prepend, quick):
+def plan_cases(j, ptr, wd, nv, prepend, quick, lhs_tr=None):
     """quick: data presence on every subset OF THE EXOGENIZED DATES (presence elsewhere in the window cannot
     matter unless the implementation reads the wrong date); thorough: every subset of the whole window"""
     out = []
@@ -760,6 +792,12 @@ def plan_cases(j, ptr, wd, nv, prepend, quick):
                 continue
             for resmode in ("zero", "nonzero"):
                 out.append(dict(plan=dict(entries=[[j, dates, ptr, wd]], present=present), resmode=resmode, nv=nv, prepend=prepend))
+    if lhs_tr in ZERO_LHS and ptr in ZERO_PTR:
+        # the same plans with the last exogenized date carrying data whose implied level is exactly 0.0
+        for dates in WINDOW_SUBSETS:
+            for resmode in ("zero", "nonzero"):
+                out.append(dict(plan=dict(entries=[[j, dates, ptr, wd]], present=None), resmode=resmode, nv=nv,
+                                prepend=prepend, zero_at=max(dates)))
     return out
 
 
@@ -808,7 +846,7 @@ def shard_models(item, res, ctx):
 
 def shard_plans(item, res, ctx):
     context, spec, j, ptr, wd, nv, prepend = item
-    cases = plan_cases(j, ptr, wd, nv, prepend, ctx.quick)
+    cases = plan_cases(j, ptr, wd, nv, prepend, ctx.quick, lhs_tr=spec["eqs"][j]["tr"])
     M = run_model_cases(spec, cases, res, ctx.seed)
     if ptr == "pct" and wd:
         res.sample({"part": "P", "context": context, "model": M.source(), "exogenized": M.names[j], "plan_transform": ptr,
@@ -886,6 +924,7 @@ def run(ctx, total, info):
         "cells_exogenized_nonzero_input_residual": c["cells_exogenized_nonzero_input_residual"],
         "cells_skipped_when_data": c["cells_skipped_when_data"],
         "cells_exogenized_missing": c["cells_exogenized_missing"],
+        "cells_exogenized_to_exact_zero": c["cells_exogenized_to_exact_zero"],
         "cells_simulated": c["cells_simulated"],
         "pairs_both_orders_compared": c["pairs_both_orders_compared"],
         "lhs_x_plan_transform_x_when_data_classes": pairs,
@@ -904,6 +943,7 @@ QUICK_FLOORS = {
     "evaluations": 30000, "distinct_nontrivial": 30000, "models_built": 4000, "cases_fully_judged": 20000,
     "cells_exogenized_zero_input_residual": 15000, "cells_exogenized_nonzero_input_residual": 15000,
     "cells_skipped_when_data": 10000, "cells_exogenized_missing": 10000, "cells_simulated": 125000,
+    "cells_exogenized_to_exact_zero": 1000,
     "pairs_both_orders_compared": 11000, "lhs_x_plan_transform_x_when_data_classes": 60,
     "order_validity_classes": 3, "excluded_order_pairs": 7000,
 }
@@ -911,6 +951,7 @@ THOROUGH_FLOORS = {     # measured: 914 748 evaluations, 51 524 models, 647 202 
     "evaluations": 500000, "distinct_nontrivial": 500000, "models_built": 28000, "cases_fully_judged": 380000,
     "cells_exogenized_zero_input_residual": 350000, "cells_exogenized_nonzero_input_residual": 350000,
     "cells_skipped_when_data": 200000, "cells_exogenized_missing": 200000, "cells_simulated": 3200000,
+    "cells_exogenized_to_exact_zero": 1000,
     "pairs_both_orders_compared": 190000, "lhs_x_plan_transform_x_when_data_classes": 60,
     "order_validity_classes": 3, "excluded_order_pairs": 180000,
 }
@@ -919,7 +960,7 @@ THOROUGH_FLOORS = {     # measured: 914 748 evaluations, 51 524 models, 647 202 
 def replay(case):
     res = engine.Result()
     seed = int(case.get("seed", 0))
-    c = {k: case[k] for k in ("plan", "resmode", "nv", "prepend", "reverse") if k in case}
+    c = {k: case[k] for k in ("plan", "resmode", "nv", "prepend", "reverse", "zero_at") if k in case}
     if "orders" in case:
         c["orders"] = case["orders"]
     run_model_cases(case["model"], [c], res, seed)
